@@ -1362,14 +1362,18 @@ def check_C13(env):
                               case, stt, {'is_warm': should, 'warm_started_by': best if should else None}, 'base_mab')
             if should:
                 for f, v in vars(imp).items():
-                    if isinstance(v, dict) and a in v and best in v and f not in ('arm_to_status',):
+                    # learned state: the arm-keyed dictionaries the bandit held before the call (an attribute the call
+                    # itself creates, a cache say, is not learned state and is judged by the results below only)
+                    if isinstance(v, dict) and a in v and best in v and f not in ('arm_to_status',) and \
+                            isinstance(vars(st0).get(f), dict) and best in vars(st0)[f]:
                         if core.state_digest(v[a]) != core.state_digest(v[best]):
                             raise Failure('C13', 'warm-started arm %r: %s is not a copy of arm %r' % (a, f, best), case,
                                           repr(v[a])[:200], repr(v[best])[:200], MODULE_OF[lp[0]])
         derived = ('arm_to_expectation', 'arm_to_exponent') if lp[0] == 'Softmax' else ()
         for t in trained:
             for f, v in vars(imp).items():
-                if isinstance(v, dict) and t in v and f not in derived:
+                if isinstance(v, dict) and t in v and f not in derived and isinstance(vars(st0).get(f), dict) and \
+                        t in vars(st0)[f]:
                     if core.state_digest(v[t]) != core.state_digest(vars(st0)[f][t]):
                         raise Failure('C13', 'warm_start modified %s of the trained arm %r' % (f, t), case, repr(v[t])[:200],
                                       repr(vars(st0)[f][t])[:200], MODULE_OF[lp[0]])
@@ -1393,6 +1397,46 @@ def check_C13(env):
         if list(m.cold_arms) != []:
             raise Failure('C13', 'cold_arms lists %r although every arm is observed or warm-started' % (m.cold_arms,), case,
                           m.cold_arms, [], 'base_mab')
+        # two calls with *different* feature dictionaries while arms are still cold: the second call decides from its own
+        # features (distances, threshold, closest trained arm), whatever an earlier call computed
+        feats2 = dict(feats)
+        feats2.update({1: feats[2], 2: feats[1], 4: [-1.0, 0.5]})     # the trained arms trade places
+
+        def _oracle(ff, q):
+            th = float(np.quantile([min(sd.euclidean(ff[a], ff[b]) for b in arms if b != a) for a in arms], q))
+            out = {}
+            for a in arms:
+                if a in trained:
+                    continue
+                ds = sorted((sd.euclidean(ff[a], ff[t]), t) for t in trained)
+                if (len(ds) > 1 and ds[1][0] - ds[0][0] < 1e-9) or abs(ds[0][0] - th) < 1e-9:
+                    out[a] = None            # a tie the statement does not decide
+                else:
+                    out[a] = (ds[0][0] <= th, ds[0][1])
+            return out
+        for q1, q2 in ((0.0, 0.5), (0.2, 1.0), (0.0, 0.0)):
+            case2 = {'arms': arms, 'lp': lp, 'calls': [['fit'] + rows, ['warm_start', [[k, v] for k, v in feats.items()], q1],
+                                                        ['warm_start', [[k, v] for k, v in feats2.items()], q2]]}
+            m2 = build(case2)
+            call(m2, case2['calls'][0])
+            m2.warm_start(dict(feats), q1)
+            o1, o2 = _oracle(feats, q1), _oracle(feats2, q2)
+            after1 = {a: dict(m2._imp.arm_to_status[a]) for a in arms}
+            m2.warm_start(dict(feats2), q2)
+            for a in arms:
+                if a in trained or o1[a] is None or o2[a] is None:
+                    continue
+                stt = m2._imp.arm_to_status[a]
+                if after1[a]['is_warm']:
+                    want = (True, after1[a]['warm_started_by'])
+                else:
+                    want = o2[a]
+                if stt['is_warm'] != want[0] or (want[0] and stt['warm_started_by'] != want[1]):
+                    raise Failure('C13', 'second warm_start with other features (quantiles %r then %r): cold arm %r is warm=%r by '
+                                  '%r; by the features of that call it should be warm=%r by %r'
+                                  % (q1, q2, a, stt['is_warm'], stt['warm_started_by'], want[0], want[1] if want[0] else None),
+                                  case2, stt, {'is_warm': want[0], 'warm_started_by': want[1] if want[0] else None}, 'base_mab')
+            yield case2
         # refit on data that omits a trained and the warm arms: they are cold again
         refit = rand_rows(rng, 6, [2], binary, 2 if ctx else 0)
         call(m, ['fit'] + refit)
